@@ -39,6 +39,7 @@ CONSTANTS
   MaxV = {v}
   PairLen = {pair}
   H2Len = {h2}
+  MaxD = {d}
   ShardK = {k}
   ShardS = {s}
   EmitOn = {emit}
@@ -126,7 +127,10 @@ def seeds() -> list:
         # embedded complete requests and classic injections, every field
         for u in ("a HTTP/1.1\r\nHost: e\r\n\r\n" + EVIL, "a?x= HTTP/1.1\r\n\r\n" + EVIL, "a#f HTTP/1.1\r\n\r\n" + EVIL,
                   "a%0d%0aX-Injected:%201", "a%0D%0A%zz", "a%", "%a?%aa%a#%", "a\r\nX-Injected: 1", "a\nX-Injected: 1",
-                  "a\rX-Injected: 1", "a X", "a\tX", "/a/../b", "a?b?c#d#e", "a\xe9?\xe9#\xe9"):
+                  "a\rX-Injected: 1", "a X", "a\tX", "/a/../b", "a?b?c#d#e", "a\xe9?\xe9#\xe9",
+                  # dot segments (the manager's parse_url removes them, pool and connection do not)
+                  ".", "..", "./", "../", "a/./b", "a/../b", "a/b/../../c", "a/..", "a/.", "../../a", "..a/.b/c..", "a/%2e%2e/b",
+                  "a/..?x/../y#/../z", "a/.. /b", "a/..\r\nX-Injected: 1/..", "/../a", "a//../b"):
             out.append(mkreq(level, url=u))
         for v in ("a\r\n\r\n" + EVIL, "a\r\nX-Injected: 1", "a\nX-Injected: 1", "a\rX-Injected: 1", "a\r\n X-Folded: 1",
                   "a\n\tX-Folded: 1", "a\r X-Folded: 1", "a\r\n", "a\n", "a\r", "a\r\n ", "\r\n a", "a\r\n\r\n b", "a\x00b", "\xe9",
@@ -262,7 +266,7 @@ def h2_available() -> bool:
 # ------------------------------------------------------------------------------ stage 4: TLC judges
 
 def validate(traces):
-    """Batch validation by TLC.  Returns [(hard clause, exact?, class)] per trace."""
+    """Batch validation by TLC.  Returns [(hard clause, exact?, class, refusal rules that apply)] per trace."""
     if not traces:
         return []
     doc = env_doc()
@@ -270,10 +274,10 @@ def validate(traces):
     doc["traces"] = [{"req": t["req"], "raised": t["raised"], "wire": t["wire"], "h2": t["h2"]} for t in traces]
     r = tlc.run("Wire_Trace", TRACE_CFG, workers=1, files={"traces.json": json.dumps(doc)},
                 env={"TRACE_FILE": "traces.json"}, timeout=7200)
-    vs = tlc.tagged_tuples(r.out, "VERDICT")
-    if len(vs) != len(traces) or [v[0] for v in vs] != list(range(1, len(traces) + 1)):
+    vs = [ln[1:-1].split("|")[1:] for ln in r.out.splitlines() if ln.startswith('"VERDICT|') and ln.endswith('"')]
+    if len(vs) != len(traces) or [v[0] for v in vs] != [str(i) for i in range(1, len(traces) + 1)] or any(len(v) != 5 for v in vs):
         raise tlc.MachineryError(f"Wire_Trace produced {len(vs)} verdicts for {len(traces)} traces\n{r.out[-2000:]}")
-    return [(v[1], v[2] == "exact", v[3]) for v in vs]
+    return [(v[1], v[2] == "exact", v[3], [w for w in v[4].split("+") if w]) for v in vs]
 
 
 def nontrivial(req) -> bool:
@@ -300,12 +304,15 @@ def assess(items, origin):
     verdicts = validate(traces)
     res = {"n": len(items), "bad": [], "drift": [], "tally": {}, "nontrivial": set(), "samples": [], "known": []}
     findings = known.load("C10")
-    for (req, expect, ewire), t, (hard, exact, cls) in zip(items, traces, verdicts):
+    for (req, expect, ewire), t, (hard, exact, cls, why) in zip(items, traces, verdicts):
         if expect is not None and expect != cls:
             raise tlc.MachineryError(f"emitted expectation {expect} but the trace monitor computed {cls} for {req}")
         written = bool(t["wire"]) or (req["level"] == "h2" and not t["raised"])
         tk = f"{req['level']}/{cls}/{'written' if written else 'refused'}"
         res["tally"][tk] = res["tally"].get(tk, 0) + 1
+        for w in why:          # which refusal rule of the spec this execution exercised
+            rk = f"rule:{req['level']}/{w}"
+            res["tally"][rk] = res["tally"].get(rk, 0) + 1
         if nontrivial(req):
             res["nontrivial"].add(hash(key(req)))
         clause = hard
@@ -398,7 +405,9 @@ def random_request(rng):
     req = {"level": level,
            "method": hostile(0, 6) if which < .2 else rng.choice([syms("GET"), syms("POST"), syms("put"), plain(1, 4)]),
            "slash": True if level != "conn" else rng.random() < .8,
-           "url": hostile(0, 10) if .2 <= which < .5 or rng.random() < .2 else plain(0, 5),
+           "url": (hostile(0, 10) if .2 <= which < .5 or rng.random() < .2 else
+                   [rng.choice([".", ".", "/", "/", "a", "?", "#", "%", "SP"]) for _ in range(rng.randint(0, 9))] if rng.random() < .25
+                   else plain(0, 5)),
            "hdrs": [], "body": {"kind": "none", "chunks": []}}
     seen = set()
     for _ in range(rng.randint(0, 3)):
@@ -436,7 +445,7 @@ def _random_shard(args):
 
 def run(rep):
     quick = rep.tier == "quick"
-    bounds = dict(m=3, u=3, n=3, v=3, pair=1, h2=3) if quick else dict(m=4, u=4, n=3, v=4, pair=2, h2=4)
+    bounds = dict(m=3, u=3, n=3, v=3, pair=1, h2=3, d=4) if quick else dict(m=4, u=4, n=3, v=4, pair=2, h2=4, d=6)
     K = 16
     h2 = h2_available()
     sd = seeds()
@@ -492,11 +501,23 @@ def run(rep):
     rep.extra["tally_level_class_outcome"] = dict(sorted(tally.items()))
     rep.extra["http2_putheader_exercised"] = h2
     rep.extra["seeds"] = len(sd)
-    # vacuity: every entry point must have seen every class and both outcomes
+    # vacuity: every entry point must have seen every class with the outcome the class demands, and both
+    # outcomes of the latitude class where the unchanged code can produce both.  (HTTP/2: putheader's only
+    # refusals are exactly the spec's H2MustRefuse rules, so "h2/Either/refused" cannot occur and is not demanded.)
     for level in ("conn", "pool", "mgr") + (("h2",) if h2 else ()):
-        for need in ("MustRefuse/refused", "MustBeExactlyThis/written", "Either/written", "Either/refused"):
-            if not tally.get(f"{level}/{need}"):
-                raise tlc.MachineryError(f"vacuous coverage: no {level}/{need} execution (tally {tally})")
+        need = ["MustRefuse/refused", "MustBeExactlyThis/written", "Either/written"] + ([] if level == "h2" else ["Either/refused"])
+        for nd in need:
+            if not tally.get(f"{level}/{nd}"):
+                raise tlc.MachineryError(f"vacuous coverage: no {level}/{nd} execution (tally {tally})")
+    # every refusal rule of the spec must have been exercised at every entry point it applies to
+    rules = {lv: ["BadMethod", "BadName", "BreaksLine", "BadSkip"] + (["BadTarget"] if lv == "conn" else [])
+             for lv in ("conn", "pool", "mgr")}
+    if h2:
+        rules["h2"] = ["H2BadName", "H2BadValue"]
+    for lv, rs in rules.items():
+        for rname in rs:
+            if not tally.get(f"rule:{lv}/{rname}"):
+                raise tlc.MachineryError(f"vacuous coverage: refusal rule {rname} never exercised at level {lv} (tally {tally})")
     rep.exhaustive = True
 
 
